@@ -17,6 +17,8 @@ def ClientRegistry_Close : List String := ["mu.Lock", "mu.Unlock", "Stream.Close
 def ClientRegistry_KickOldConnection : List String := ["mu.Lock", "unindexLocked", "delete", "mu.Unlock", "sendKickFn", "stream.Close"]
 def CloseConnection : List String := ["delete", "RemoveControlConnection", "RemoveTunnelConnection", "connStateStore.UnregisterConnection"]
 def CreateConnection : List String := ["streamMgr.CreateStream", "connLock.Lock", "connLock.Unlock", "connLock.Unlock"]
+def FindClientNode_storage : List String := ["storage.Get", "GetConnectionState"]
+def GetConnectionState_storage : List String := ["storage.Get", "storage.Delete"]
 def HandlersComponent_Initialize : List String := ["session.NewConnectionStateStore", "SessionMgr.SetConnectionStateStore", "session.NewCrossNodePool", "SessionMgr.SetCrossNodePool"]
 def Hybrid_Get : List String := ["h.getCategory", "h.getCacheForKey", "cache.Get", "h.getSharedPersistent", "cache.Get", "h.persistent.Get"]
 def Hybrid_getCacheForKey : List String := ["h.isShared"]
@@ -31,6 +33,7 @@ def StreamManager_CreateStream : List String := ["mu.Lock", "mu.Unlock", "factor
 def UpdateAuth : List String := ["mu.Lock", "mu.Unlock", "unindexLocked"]
 def WebSocketModule_handleConnection : List String := ["session.CloseConnection", "wsConn.Close"]
 def cleanupStaleConnections : List String := ["clientRegistry.CleanupStale", "cloudControl.DisconnectClientIfMatch", "CloseConnection"]
+def clientIndexPointsTo_storage : List String := ["storage.Get"]
 def handleDNSQueryCrossNode : List String := ["connStateStore.FindClientNode", "crossNodePool.Get", "WriteFrame", "ReadFrame"]
 def handleDisconnectCommand : List String := ["clientRegistry.GetByConnID", "CloseConnection"]
 def handleHandshake : List String := ["RegisterControlConnection", "RegisterControlConnection", "authHandler.HandleHandshake", "sendHandshakeResponse", "clientRegistry.DropStaleIndex", "sendHandshakeResponse", "clientRegistry.GetByClientID", "connStateStore.UnregisterConnection", "clientRegistry.Remove", "clientRegistry.UpdateAuth", "connStateStore.RegisterConnection"]
